@@ -66,7 +66,13 @@ FTY = {"i32": "i32", "opt": "Option<i32>", "inner": "Inner"}
 # generics: (parameter list, where clause, type of the extra field that uses the parameter)
 GENS = {"none": ("", "", None), "type": ("<T>", "", "T"), "bounded": ("<T: Clone + std::fmt::Debug>", "", "Vec<T>"),
         "where": ("<T>", "where T: Clone", "Option<T>"), "default": ("<T = i32>", "", "Option<T>"),
-        "const": ("<const N: usize>", "", "[i32; N]"), "lifetime": ("<'a>", "", "&'a str"), "two": ("<A, B: 'static>", "", "(A, Option<B>)")}
+        "const": ("<const N: usize>", "", "[i32; N]"), "lifetime": ("<'a>", "", "&'a str"), "two": ("<A, B: 'static>", "", "(A, Option<B>)"),
+        # every order of the three kinds of parameter the language allows (lifetimes first; types and consts mix)
+        "type_const": ("<T, const N: usize>", "", "[T; N]"), "const_type": ("<const N: usize, T>", "", "[T; N]"),
+        "all_kinds": ("<'a, K: 'static, const N: usize, V>", "", "(&'a K, [V; N])"),
+        "const_default": ("<T, const N: usize = 2>", "", "[T; N]")}
+# (parameters bounded by traits that ts_rs::Dummy does not implement need #[ts(concrete(..))] / #[ts(bound)], as
+# documented; they are not in the domain)
 
 
 def body_src(shape, fattrs, fty, extra=None, ident="a"):
@@ -157,7 +163,7 @@ def run(tier):
                                     (["enum"], {"c": 0, "v": 1, "f": 2}, ["none"], ["a"]),
                                     (["struct", "enum"], {"c": 1, "v": 0 if q else 1, "f": 1}, allg, ["a"]),
                                     (["struct", "enum"], {"c": 1, "v": 0, "f": 1}, ["none", "type"], ids)):
-        cfgp = os.path.join(vlib.BUILD, "attrs-cfg.json")
+        cfgp = os.path.join(vlib.TMP, "attrs-cfg.json")
         json.dump({"kinds": kinds, "palette": palettes(tier), "max": mx, "gens": gens, "idents": idents}, open(cfgp, "w"))
         r = vlib.run_tlc("MC_Attrs", "MC_Attrs.cfg", workers=12, env={"VERIF_CFG": cfgp}, timeout=2400, metatag="c16p")
         vlib.tlc_must_succeed(r, "MC_Attrs")
@@ -205,7 +211,7 @@ def run(tier):
     for n, verdict in out.items():
         cases[n]["compiled"] = verdict
     # ADJUDICATE
-    tpath = os.path.join(vlib.BUILD, "attrs-trace.ndjson")
+    tpath = os.path.join(vlib.TMP, "attrs-trace.ndjson")
     vlib.write_ndjson(tpath, [{"item": c["item"], "real": c["real"], "compiled": c["compiled"]} for c in cases])
     a = vlib.run_tlc("Trace_Attrs", "Trace_Attrs.cfg", workers=12, env={"VERIF_TRACE": tpath}, timeout=2400,
                      tags=("BADPANIC", "BADSILENT", "BADCOMPILE", "BADENTRY", "DRIFT"), metatag="c16a")
